@@ -157,6 +157,9 @@ def impl(c):
     return [show_floats(res), show_floats(gr) if gr is not None else None]
 
 
+FLOAT_KEYS = ('out', 'rm', 'rv', 'dx', 'y', 'g')
+
+
 def _close_tok(a, b):
     if a == b: return True
     try:
@@ -176,6 +179,7 @@ def _close_line(m, i):
         if '=' in a and '=' in b:
             ka, va = a.split('=', 1); kb, vb = b.split('=', 1)
             if ka != kb: return False
+            if ka not in FLOAT_KEYS: return False          # counters and flags are exact (never read as float bit patterns)
         else:
             va, vb = a, b
         la, lb = va.split(','), vb.split(',')
